@@ -100,7 +100,7 @@ func WorkerMain(args []string) int {
 	lo, _ := strconv.Atoi(args[3])
 	hi, _ := strconv.Atoi(args[4])
 	journal := args[5]
-	debug.SetMaxStack(64 << 20)
+	debug.SetMaxStack(24 << 20)
 	if os.Getenv("VERIF_NO_RLIMIT") == "" {
 		lim := syscall.Rlimit{Cur: 6 << 30, Max: 6 << 30}
 		syscall.Setrlimit(syscall.RLIMIT_AS, &lim)
@@ -182,6 +182,7 @@ type runState struct {
 	agg      map[string]*shardOut       // per space
 	deadline time.Time
 	capped   bool
+	crashes  int
 	keys     map[string]map[int]string // per space: case index -> state key
 }
 
@@ -210,7 +211,7 @@ func (rs *runState) runShard(sp *Space, lo, hi int) {
 		jf.Write(make([]byte, 16))
 		jf.Close()
 		jname := jf.Name()
-		out, died, hung := runWorker(rs.chk.ID, rs.tier, sp.Name, lo, hi, jname, caseTO)
+		out, died, hung, firstMsg := runWorkerMsg(rs.chk.ID, rs.tier, sp.Name, lo, hi, jname, caseTO)
 		cur := readJournal(jname)
 		os.Remove(jname)
 		if out != nil {
@@ -246,21 +247,32 @@ func (rs *runState) runShard(sp *Space, lo, hi int) {
 		}
 		confirmed := 0
 		var lastMsg string
-		for k := 0; k < 3; k++ {
+		// the first few crashes are confirmed 3x alone; later ones once (each costs a worker)
+		rs.mu.Lock()
+		rs.crashes++
+		need := 2
+		if rs.crashes > 2 {
+			need = 0 // later deaths of the same run are recorded without re-running them alone
+		}
+		rs.mu.Unlock()
+		for k := 0; k < need; k++ {
 			_, d, h, msg := runWorkerMsg(rs.chk.ID, rs.tier, sp.Name, cur, cur+1, "", caseTO)
 			if d || h {
 				confirmed++
 				lastMsg = msg
 			}
 		}
-		if confirmed == 3 {
+		if need == 0 {
+			lastMsg = firstMsg
+		}
+		if confirmed == need {
 			o := newShardOut()
 			sig := kind + "@" + fatalSig(lastMsg)
 			o.add(sp, cur, Result{Viol: &Violation{Sub: "iso", Sig: sig, Detail: "worker process " + strings.ToLower(kind) + ": " + firstLines(lastMsg, 6)}, Nontrivial: true})
 			o.Extra["worker_deaths"] = 1
 			rs.merge(sp, o)
 		} else if confirmed > 0 {
-			fmt.Fprintf(os.Stderr, "harness nondeterminism: %s case %d crashed %d/3 times alone\n", sp.Name, cur, confirmed)
+			fmt.Fprintf(os.Stderr, "harness nondeterminism: %s case %d crashed %d/%d times alone\n", sp.Name, cur, confirmed, need)
 			os.Exit(3)
 		} else {
 			// did not reproduce alone: run it normally
@@ -601,6 +613,18 @@ func (rs *runState) finish(stats []spaceStat, start time.Time, seed int) int {
 			fmt.Printf("VIOLATION property=%s replay=%s\n", chk.ID, path)
 			fmt.Printf("  signature=%s cases=%d sub=%s\n  case: %s\n  %s\n", sig, unlisted, v.Sub, trunc(v.Text, 600), trunc(v.Detail, 1200))
 			break
+		}
+	}
+	if dir := os.Getenv("VERIF_DUMP_VIOLKEYS"); dir != "" {
+		// triage aid: the exact set of violating case keys per signature (sidecar of a known: entry)
+		os.MkdirAll(dir, 0755)
+		for sig, keys := range rs.violKeys {
+			var ks []string
+			for k := range keys {
+				ks = append(ks, k)
+			}
+			sort.Strings(ks)
+			os.WriteFile(filepath.Join(dir, chk.ID+"-"+sanitize(sig)+"."+rs.tier+".cases"), []byte(strings.Join(ks, "\n")+"\n"), 0644)
 		}
 	}
 	for _, e := range kf.entries {
